@@ -487,20 +487,26 @@ class TFLiteSerialiser:
 
         offlineAlloc = [version, subgraph_idx, nbr_tensors_all]
 
-        if not any([name == b"OfflineMemoryAllocation" for name, _ in self.nng.metadata]):
-            for tensor_map_sg in self.tensor_map_all:
-                nbr_tensors_sg = np.int32(len(tensor_map_sg))
-                # An offset of -1 indicates that the tensor will be allocated online by Tensorflow Lite Micro
-                offsets = [np.int32(-1)] * nbr_tensors_sg
-                # Ensure that the order of the offsets match the order of the tensors
-                for tens, idx in tensor_map_sg.items():
-                    # Set offsets for tensor allocated in Tensor Arena or in the scratch_fast area
-                    if tens.mem_type in (MemType.Scratch, MemType.Scratch_fast):
-                        offsets[idx] = np.int32(tens.address) if tens.address is not None else np.int32(0)
+        # A record carried over from the input file describes the input's tensors (every file written by Vela has one):
+        # it is replaced, never passed through
+        self.nng.metadata = [
+            (name, buffer)
+            for name, buffer in self.nng.metadata
+            if name not in (b"OfflineMemoryAllocation", "OfflineMemoryAllocation")
+        ]
+        for tensor_map_sg in self.tensor_map_all:
+            nbr_tensors_sg = np.int32(len(tensor_map_sg))
+            # An offset of -1 indicates that the tensor will be allocated online by Tensorflow Lite Micro
+            offsets = [np.int32(-1)] * nbr_tensors_sg
+            # Ensure that the order of the offsets match the order of the tensors
+            for tens, idx in tensor_map_sg.items():
+                # Set offsets for tensor allocated in Tensor Arena or in the scratch_fast area
+                if tens.mem_type in (MemType.Scratch, MemType.Scratch_fast):
+                    offsets[idx] = np.int32(tens.address) if tens.address is not None else np.int32(0)
 
-                offlineAlloc += offsets
+            offlineAlloc += offsets
 
-            self.nng.metadata.append(("OfflineMemoryAllocation", np.array(offlineAlloc)))
+        self.nng.metadata.append(("OfflineMemoryAllocation", np.array(offlineAlloc)))
 
         metadata_list = []
         for name, buffer in self.nng.metadata:
